@@ -59,7 +59,13 @@ func GenC12(verifSeed uint64, run int) *Scenario {
 		// deb/rpm with a key file configured always sign through the
 		// deterministic simulated signer (salted key-file signatures have no
 		// byte oracle); others sometimes get their own signer
-		if contains(w.Signed, c.Format) && c.Format != "apk" || g.Bool(0.25) {
+		// deb/rpm with a key file configured: half of the clients sign
+		// through the deterministic simulated signer (byte oracle), half
+		// through nfpm's own key-file path (salted signatures: race and error
+		// oracles only); others sometimes get their own signer
+		if contains(w.Signed, c.Format) && c.Format != "apk" {
+			c.Signer = g.Bool(0.5)
+		} else if g.Bool(0.25) {
 			c.Signer = true
 		}
 	}
@@ -71,6 +77,7 @@ func GenC12(verifSeed uint64, run int) *Scenario {
 	plan.SwitchP = Pick(g, []float64{0, 0.05, 0.2, 0.5, 1})
 	plan.Guided = g.Bool(0.6)
 	plan.SchedSeed = g.Uint64()
+	plan.RefAfter = g.Bool(0.5)
 	plan.InstrSwitchP = Pick(g, []float64{0.002, 0.01, 0.05, 0.2})
 	return &Scenario{Property: "C12", VerifSeed: verifSeed, Run: run, RunSeed: seed, World: w, C12: plan}
 }
@@ -93,16 +100,16 @@ var siteNames = []string{"other", "after.get", "after.defaults", "after.name", "
 const msgHold = 3
 
 type c12client struct {
-	plan   Client
-	cfg    *nfpm.Config
-	signer *SimSigner
-	res    BuildResult
-	getErr error
+	plan    Client
+	cfg     *nfpm.Config
+	signer  *SimSigner
+	res     BuildResult
+	getErr  error
 	valErr  error
 	prepErr error
-	name   string
-	spin   int
-	nYield int
+	name    string
+	spin    int
+	nYield  int
 }
 
 func siteCode(site string) int {
@@ -185,42 +192,61 @@ func RunC12(rt *Runtime, sc *Scenario) RunResult {
 	old := runtime.GOMAXPROCS(gmp)
 	defer runtime.GOMAXPROCS(old)
 
-	// reference model: sequential, alone, fresh parse
+	// reference model: sequential, alone, fresh parse. In half of the runs it
+	// is computed after the concurrent phase, so that lazily initialised or
+	// cached process-wide state is still cold while the clients overlap (a
+	// sequential warm-up would hide first-use races).
 	refs := map[string]*RefInfo{}
-	for _, c := range plan.Clients {
-		if c.Kind != "package" {
-			continue
+	buildRefs := func() bool {
+		for _, c := range plan.Clients {
+			if c.Kind != "package" {
+				continue
+			}
+			k := c.Format + "/" + c12Sign(c)
+			if _, ok := refs[k]; ok {
+				continue
+			}
+			if !c.Signer && contains(w.Signed, c.Format) && c.Format != "apk" {
+				// key-file signed: salted signatures, no byte oracle; not
+				// building it sequentially also keeps key handling cold
+				res.Counters["probe.keyfile_signing_client"]++
+				refs[k] = nil
+				continue
+			}
+			ref, ok, err := rt.Reference(w, c.Format, c12Sign(c), "", gmp)
+			res.Counters["builds"] += int64(ref.Builds)
+			res.Notes = append(res.Notes, ref.Notes...)
+			if err != nil {
+				res.Trouble = "reference setup: " + err.Error()
+				return false
+			}
+			if contains(w.ExpectFail, c.Format) {
+				if ok {
+					res.Trouble = fmt.Sprintf("generator: %s was expected to be invalid for this configuration but builds", c.Format)
+					return false
+				}
+				res.Counters["probe.format_fails_by_construction"]++
+				res.Notes = res.Notes[:len(res.Notes)-len(ref.Notes)]
+				refs[k] = nil
+				continue
+			}
+			if !ok {
+				res.Counters["reference_failed"]++
+				refs[k] = nil
+				continue
+			}
+			if !ref.Stable && !ref.KeyFileSigned {
+				res.Counters["unstable_reference"]++
+			}
+			refs[k] = ref
 		}
-		k := c.Format + "/" + c12Sign(c)
-		if _, ok := refs[k]; ok {
-			continue
-		}
-		ref, ok, err := rt.Reference(w, c.Format, c12Sign(c), "", gmp)
-		res.Counters["builds"] += int64(ref.Builds)
-		res.Notes = append(res.Notes, ref.Notes...)
-		if err != nil {
-			res.Trouble = "reference setup: " + err.Error()
+
+		return true
+	}
+	if !plan.RefAfter {
+		if !buildRefs() {
 			return res
 		}
-		if contains(w.ExpectFail, c.Format) {
-			if ok {
-				res.Trouble = fmt.Sprintf("generator: %s was expected to be invalid for this configuration but builds", c.Format)
-				return res
-			}
-			res.Counters["probe.format_fails_by_construction"]++
-			res.Notes = res.Notes[:len(res.Notes)-len(ref.Notes)]
-			refs[k] = nil
-			continue
-		}
-		if !ok {
-			res.Counters["reference_failed"]++
-			refs[k] = nil
-			continue
-		}
-		if !ref.Stable && !ref.KeyFileSigned {
-			res.Counters["unstable_reference"]++
-		}
-		refs[k] = ref
 	}
 
 	// the parsed configurations (shared by their clients)
@@ -276,6 +302,11 @@ func RunC12(rt *Runtime, sc *Scenario) RunResult {
 		res.Counters["yields"] += int64(len(trace))
 	}
 
+	if plan.RefAfter {
+		if !buildRefs() {
+			return res
+		}
+	}
 	// oracles over the results
 	seen := map[string]bool{}
 	violate := func(v Violation) {
@@ -298,8 +329,13 @@ func RunC12(rt *Runtime, sc *Scenario) RunResult {
 			continue
 		}
 		res.Counters["builds"]++
-		sum := sha256.Sum256(c.res.Bytes)
-		elog.Add("client %d package %s failed=%v bytes=%d sha=%x name=%s", c.plan.ID, c.plan.Format, c.res.Err != nil, len(c.res.Bytes), sum[:8], c.name)
+		if !c.plan.Signer && contains(w.Signed, c.plan.Format) && c.plan.Format != "apk" {
+			// key-file signed: salted signature, bytes are not logged
+			elog.Add("client %d package %s failed=%v (key-file signed) name=%s", c.plan.ID, c.plan.Format, c.res.Err != nil, c.name)
+		} else {
+			sum := sha256.Sum256(c.res.Bytes)
+			elog.Add("client %d package %s failed=%v bytes=%d sha=%x name=%s", c.plan.ID, c.plan.Format, c.res.Err != nil, len(c.res.Bytes), sum[:8], c.name)
+		}
 		ref := refs[c.plan.Format+"/"+c12Sign(c.plan)]
 		if ref == nil {
 			continue
@@ -425,6 +461,18 @@ func runBaton(clients []*c12client, plan *C12Plan) (schedule []Switch, trace []s
 	}
 	remaining := n
 	yieldNo := 0
+	// running: clients released and not yet heard from. Normally exactly one.
+	// When the released client blocks on a lock that a parked client holds,
+	// nothing arrives; after a generous timeout the controller releases
+	// another parked client as well (recorded in the trace). While more than
+	// one client is running, arriving clients stay parked until the set is
+	// empty again, which restores the one-runner invariant.
+	running := map[int]bool{}
+	lastTimeoutRelease := -1
+	parked := make([]bool, n)
+	for i := range parked {
+		parked[i] = true
+	}
 	// first client
 	cur := 0
 	if plan.Replay {
@@ -435,12 +483,46 @@ func runBaton(clients []*c12client, plan *C12Plan) (schedule []Switch, trace []s
 		cur = g.Intn(n)
 	}
 	schedule = append(schedule, Switch{Yield: 0, Client: cur})
+	running[cur] = true
+	parked[cur] = false
 	b.release(cur)
 	for remaining > 0 {
-		kind, id, ok := b.wait()
+		kind, id, ok, timedOut := b.waitTimeout(2000)
 		if !ok {
 			return schedule, trace, "baton: control pipe closed"
 		}
+		if timedOut {
+			// The runner is blocked on something a parked client holds (a
+			// lock in the code under test). It consumes no CPU and cannot
+			// report until it is unblocked, so it no longer counts as
+			// running; scheduling goes on among the parked clients. When it
+			// gets the lock it runs alongside the current runner until its
+			// next yield (brief true parallelism, only in runs where the
+			// code under test parks with a lock held).
+			for r := range running {
+				delete(running, r)
+			}
+			next := -1
+			for k := 1; k <= n; k++ {
+				i := (lastTimeoutRelease + k) % n
+				if parked[i] && !done[i] {
+					next = i
+					break
+				}
+			}
+			lastTimeoutRelease = next
+			if next < 0 {
+				return schedule, trace, "baton: released client does not respond and nobody else can run (deadlock in the code under test?)"
+			}
+			trace = append(trace, fmt.Sprintf("timeout:release %d", next))
+			held[next] = false
+			running[next] = true
+			parked[next] = false
+			b.release(next)
+			continue
+		}
+		delete(running, id)
+		parked[id] = true
 		code := kind >> 2
 		kind &= 3
 		yieldNo++
@@ -461,6 +543,10 @@ func runBaton(clients []*c12client, plan *C12Plan) (schedule []Switch, trace []s
 		}
 		if remaining == 0 {
 			break
+		}
+		if len(running) > 0 {
+			// another client is still running (lock hand-over): stay parked
+			continue
 		}
 		curRunnable := !done[id] && !held[id]
 		next := -1
@@ -511,6 +597,8 @@ func runBaton(clients []*c12client, plan *C12Plan) (schedule []Switch, trace []s
 		if next != id {
 			schedule = append(schedule, Switch{Yield: yieldNo, Client: next})
 		}
+		running[next] = true
+		parked[next] = false
 		b.release(next)
 	}
 	wg.Wait()
